@@ -1,6 +1,7 @@
 (** Property C17 — the theorems the check counts as obligations.  Nothing but
     statements closed by [exact] and [Print Assumptions]. *)
-From HS Require Import Base.Prelude C17.Model C17.PBProofs C17.PBConv C17.Chain C17.ChainProofs C17.ChainConv.
+From HS Require Import Base.Prelude C17.Model C17.PBProofs C17.PBConv C17.Chain C17.ChainProofs C17.ChainConv C17.ML C17.MLProofs.
+From Coq Require Import Permutation.
 Local Open Scope Z_scope.
 
 (** Primary-backup, every schedule (any message reordering, any interleaving of
@@ -58,3 +59,28 @@ Theorem c17_craq_check_then_read_witness :
   craq_violates qwit2_cfg qwit2_sched 1 = true /\ ~ craq_read_statement.
 Proof. exact (conj craq_check_then_read_witness (craq_violates_refutes _ _ _ craq_check_then_read_witness)). Qed.
 Print Assumptions c17_craq_check_then_read_witness.
+
+(** Multi-leader.  The version merge every replica applies ("dominating vector
+    clock wins, otherwise LastWriterWins") is idempotent; on versions whose
+    timestamps respect causality and whose (timestamp, writer) keys are distinct
+    it is commutative and associative. *)
+Theorem c17_ml_merge_laws : forall a b c,
+  merge a a = a /\
+  (consistent a b -> merge a b = merge b a) /\
+  (consistent a b -> consistent b c -> consistent a c -> merge (merge a b) c = merge a (merge b c)).
+Proof. intros a b c. exact (conj (merge_idem a) (conj (merge_comm a b) (merge_assoc a b c))). Qed.
+Print Assumptions c17_ml_merge_laws.
+
+(** Replicas that receive the same versions of a key in different orders (any
+    reordering of Replicate / anti-entropy data) end with the same version. *)
+Theorem c17_ml_order_independent : forall init l1 l2,
+  Permutation l1 l2 -> pairwise (init :: l1) ->
+  fold_left merge l1 init = fold_left merge l2 init.
+Proof. exact merge_order_independent. Qed.
+Print Assumptions c17_ml_order_independent.
+
+(** The side condition is needed: causally ordered writes stamped with the same
+    instant (zero store latency and zero link delay) break associativity. *)
+Theorem c17_ml_merge_not_assoc_witness : merge (merge na nb) nc <> merge na (merge nb nc).
+Proof. exact merge_not_assoc_witness. Qed.
+Print Assumptions c17_ml_merge_not_assoc_witness.
